@@ -186,6 +186,37 @@ what was produced — so it never returns more than the declared size. -/
 def lz4Decomp (ext : Bytes → Option Bytes) (body : Bytes) : Option Bytes :=
   if lz4Guard body then (ext (body.drop 4)).filter (fun out => out.length ≤ beNat (body.take 4)) else none
 
+/-- `snap::bytes::read_varu64` (snap 1.1.2 `varint.rs`): little-endian base-128, `(0, 0)` when the input ends inside
+the integer or a shift reaches 64 (`checked_shl` tests the shift amount only; shifted-out bits are dropped). -/
+def readVaru64 : Bytes → (n shift i : Nat) → Nat × Nat
+  | [], _, _, _ => (0, 0)
+  | b :: rest, n, shift, i =>
+    if b < 0x80 then
+      if shift ≥ 64 then (0, 0) else (n ||| ((b.toNat <<< shift) % 2 ^ 64), i + 1)
+    else
+      if shift ≥ 64 then (0, 0) else readVaru64 rest (n ||| (((b.toNat &&& 0x7f) <<< shift) % 2 ^ 64)) (shift + 7) (i + 1)
+
+/-- `snap::raw::decompress_len`: 0 for an empty input, else the header's varint (at most 5 bytes, at most `u32::MAX`). -/
+def snappyLen (body : Bytes) : Option Nat :=
+  if body.isEmpty then some 0
+  else
+    let r := readVaru64 body 0 0 0
+    if r.2 = 0 ∨ r.2 > 5 then none
+    else if r.1 > 0xFFFFFFFF then none
+    else some r.1
+
+/-- The guard in front of `snap::raw::Decoder::decompress_vec` (`frame/mod.rs` `decompress`, fix bd65dae): the declared
+size must not exceed `64 * compressed_len + 64` (the length is taken over the WHOLE body, preamble included). -/
+def snappyGuard (body : Bytes) : Bool :=
+  match snappyLen body with
+  | some n => n ≤ 64 * body.length + 64
+  | none => false
+
+/-- `decompress(body, Snappy)`: the guard, then `decompress_vec` (external: `ext`), which allocates
+`vec![0; decompress_len]`, decodes into it and truncates to what was produced — never more than declared. -/
+def snappyDecomp (ext : Bytes → Option Bytes) (body : Bytes) : Option Bytes :=
+  if snappyGuard body then (ext body).filter (fun out => out.length ≤ (snappyLen body).getD 0) else none
+
 /-- The whole pipeline on the bytes of one frame.  `decomp` is the negotiated decompressor (LZ4 / Snappy are
 external crates: a parameter of the model, fuzzed by the harness), `none` when no compression was negotiated;
 `uni` is the class table of non-ASCII scalars (parameter, see TypeParser.lean). -/
